@@ -368,67 +368,72 @@ Section ULaid.
     apply (LL.Born_of_InReg W); [exact Hid|exact Hh|]. destruct lc; [exact Hreg|exact I].
   Qed.
 
-  Lemma local_go_laid flv : forall es ns ls ats g cA c0 B st,
-    Forall PeL es -> forallb frag_exp es = true ->
-    chain W c0 (flat_map LS.m_exp es) B ->
-    (forall l, In l ls -> idok W l /\ hi W l <= c0) -> cA <= c0 ->
-    st <> [] -> GU st c0 B ->
-    clean_run true (fst (local_go flv ns ls ats es g)) st = true /\
-    EvoS W cA B (tvs st) (tvs (stack_run (fst (local_go flv ns ls ats es g)) st)).
+  (* since fixes/C07-multi-local-order.diff: the initialisers (a piece over [c0, B]), then the names *)
+  Lemma local_adds_direct : forall es ns ls ats cA B st,
+    (forall l, In l ls -> idok W l /\ hi W l <= B) ->
+    (forall e, In e es -> InReg W (S.ref_of_exp e) cA B) ->
+    st <> [] ->
+    clean_run true (local_add_acts ns ls ats es) st = true /\
+    EvoS W cA B (tvs st) (tvs (stack_run (local_add_acts ns ls ats es) st)).
   Proof.
-    induction es as [|e es' IH]; intros ns ls ats g cA c0 B st Hall Hf Hch Hp HcA Hn Hg.
-    - rewrite local_go_nil. cbn [fst]. pose proof (chain_le W _ _ _ Hch) as HcB. cbn [flat_map] in HcB.
-      apply (local_rest_direct None ns ls ats cA B st); auto.
-      intros l Hl. destruct (Hp l Hl) as [A1 A2]. split; [exact A1|lia].
-    - inversion Hall as [|? ? [He _] Hr]; subst. cbn [forallb] in Hf. apply andb_true_iff in Hf. destruct Hf as [Hf1 Hf2].
-      cbn [flat_map] in Hch. destruct (chain_app W _ _ _ _ Hch) as [c1 [X1 X2]].
-      pose proof (chain_le W _ _ _ X1) as L1. pose proof (chain_le W _ _ _ X2) as L2.
-      destruct (He Hf1 None flv g c0 c1 X1 st Hn (G_sub W _ _ _ _ _ Hg (Z.le_refl c0) L2)) as [P1 P2].
-      assert (Honly : fst (local_go flv ns ls ats (e :: es') g) = fst (tr_exp e None flv g) ->
-                      clean_run true (fst (local_go flv ns ls ats (e :: es') g)) st = true /\
-                      EvoS W cA B (tvs st) (tvs (stack_run (fst (local_go flv ns ls ats (e :: es') g)) st))).
-      { intros E. rewrite E. split; [exact P1|].
-        destruct (tvs st) as [|vs r] eqn:Et; [apply tvs_nonempty in Hn; contradiction|]. apply Evo_EvoS.
-        exact (Evo_widen W _ _ _ _ _ _ P2 HcA L2). }
-      destruct ns as [|n ns']; [apply Honly; unfold local_go; destruct (tr_exp e None flv g); reflexivity|].
-      destruct ls as [|l ls']; [apply Honly; unfold local_go; destruct (tr_exp e None flv g); reflexivity|].
-      destruct ats as [|at_ ats']; [apply Honly; unfold local_go; destruct (tr_exp e None flv g); reflexivity|].
-      clear Honly. rewrite local_go_cons. destruct (tr_exp e None flv g) as [a1 g1]. cbn [fst] in P1, P2. cbv zeta.
-      destruct (Hp l (or_introl eq_refl)) as [Hid Hh].
+    induction es as [|e es' IH]; intros ns ls ats cA B st Hp He Hn.
+    - cbn [local_add_acts]. apply (local_rest_direct None ns ls ats cA B st); auto.
+    - assert (Hnil : clean_run true [] st = true /\ EvoS W cA B (tvs st) (tvs (stack_run [] st))).
+      { split; [reflexivity|]. cbn [stack_run fold_left].
+        destruct (tvs st) as [|vs r] eqn:Et; [apply tvs_nonempty in Hn; contradiction|]. apply Evo_EvoS. apply Evo_refl. }
+      destruct ns as [|n ns']; [exact Hnil|]. destruct ls as [|l ls']; [exact Hnil|].
+      destruct ats as [|at_ ats']; [exact Hnil|]. clear Hnil.
+      cbn [local_add_acts].
       set (v := mkVar n l false (match at_ with AttrClose => true | _ => false end) (is_func_exp e) (Some e)
                       (local_refer_empty n e) []).
-      assert (Hreg : InReg W (S.ref_of_exp e) cA c1)
-        by exact (InReg_widen W _ _ _ cA c1 (LL.region_of_exp W e c0 c1 X1) HcA (Z.le_refl c1)).
-      assert (Hb : Born W cA c1 (to_v v)).
-      { unfold to_v, v. cbn [v_name v_loc v_refer v_empty]. apply (LL.Born_of_InReg W); [exact Hid|lia|exact Hreg]. }
-      remember (stack_run a1 st) as st1 eqn:Est1. assert (Hn1 : st1 <> []) by (subst st1; exact (Evo_ne _ _ _ _ P2 Hn)).
-      assert (Hs1 : EvoS W cA c1 (tvs st) (tvs (stack_run [AAdd v] st1))).
-      { pose proof (Evo_widen W _ _ _ _ _ _ P2 HcA (Z.le_refl c1)) as P2'.
-        destruct st1 as [|sc1 r1]; [contradiction|]. cbn [stack_run fold_left step_stack add_var tvs map].
-        destruct (tvs st) as [|vs r] eqn:Et; [apply tvs_nonempty in Hn; contradiction|].
-        cbn [tvs map] in P2'. inversion P2' as [|? ? ? ? Hv1 Hr1]; subst.
-        exists [to_v v], (map to_v sc1). repeat split; auto. }
-      assert (Hg' : GU (stack_run [AAdd v] st1) c1 B).
-      { apply (G_evoS_fwd W _ _ cA c1 B (G_sub W _ _ _ _ _ Hg L1 (Z.le_refl B)) Hs1). }
-      assert (Hp' : forall l0, In l0 ls' -> idok W l0 /\ hi W l0 <= c1).
-      { intros l0 Hl0. destruct (Hp l0 (or_intror Hl0)) as [A1 A2]. split; [exact A1|lia]. }
-      pose proof (EvoS_ne _ _ _ _ Hs1) as Hn2.
+      destruct (Hp l (or_introl eq_refl)) as [Hid Hh].
+      assert (Hreg : InReg W (S.ref_of_exp e) cA B) by (apply He; left; reflexivity).
+      assert (Hb : forall v0, In v0 [v] -> Born W cA B (to_v v0)).
+      { intros v0 [<-|[]]. unfold to_v, v. cbn [v_name v_loc v_refer v_empty].
+        apply (LL.Born_of_InReg W); [exact Hid|exact Hh|exact Hreg]. }
+      destruct (addl_direct [v] cA B st Hb Hn) as [A1 A2]. cbn [map] in A1, A2.
+      pose proof (EvoS_ne _ _ _ _ A2) as Hn2.
+      assert (Hp' : forall l0, In l0 ls' -> idok W l0 /\ hi W l0 <= B).
+      { intros l0 Hl0. apply Hp. right. exact Hl0. }
       destruct es' as [|e2 es2].
-      + cbn [fst].
-        assert (Hlc : match (if is_call_exp e then Some e else None) with
-                      | Some e0 => InReg W (S.ref_of_exp e0) cA B | None => True end).
-        { destruct (is_call_exp e); [|exact I]. exact (InReg_widen W _ _ _ cA B Hreg (Z.le_refl cA) L2). }
+      + assert (Hlc : match (if is_call_exp e then Some e else None) with
+                        | Some e0 => InReg W (S.ref_of_exp e0) cA B | None => True end).
+        { destruct (is_call_exp e); [exact Hreg|exact I]. }
         destruct (local_rest_direct (if is_call_exp e then Some e else None) ns' ls' ats' cA B
-                    (stack_run [AAdd v] st1)
-                    ltac:(intros l0 Hl0; destruct (Hp' l0 Hl0) as [A1 A2]; split; [exact A1|lia]) Hlc Hn2) as [R1 R2].
-        change (a1 ++ AAdd v :: ?r) with (a1 ++ [AAdd v] ++ r).
-        rewrite !clean_run_app, !stack_run_app, <- Est1, P1, R1. split; [reflexivity|].
-        eapply EvoS_trans; [exact (EvoS_widen W _ _ _ _ _ _ Hs1 (Z.le_refl cA) L2)|exact R2].
-      + pose proof (IH ns' ls' ats' g1 cA c1 B (stack_run [AAdd v] st1) Hr Hf2 X2 Hp' ltac:(lia) Hn2 Hg') as HR.
-        destruct (local_go flv ns' ls' ats' (e2 :: es2) g1) as [a2 g2]. cbn [fst] in *. destruct HR as [R1 R2].
-        change (a1 ++ AAdd v :: a2) with (a1 ++ [AAdd v] ++ a2).
-        rewrite !clean_run_app, !stack_run_app, <- Est1, P1, R1. split; [reflexivity|].
-        eapply EvoS_trans; [exact (EvoS_widen W _ _ _ _ _ _ Hs1 (Z.le_refl cA) L2)|exact R2].
+                    (stack_run [AAdd v] st) Hp' Hlc Hn2) as [R1 R2].
+        change (AAdd v :: ?r) with ([AAdd v] ++ r).
+        rewrite clean_run_app, stack_run_app, A1, R1. split; [reflexivity|].
+        eapply EvoS_trans; [exact A2|exact R2].
+      + destruct (IH ns' ls' ats' cA B (stack_run [AAdd v] st) Hp'
+                     ltac:(intros e0 He0; apply He; right; exact He0) Hn2) as [R1 R2].
+        change (AAdd v :: ?r) with ([AAdd v] ++ r).
+        rewrite clean_run_app, stack_run_app, A1, R1. split; [reflexivity|].
+        eapply EvoS_trans; [exact A2|exact R2].
+  Qed.
+
+  Lemma local_go_laid flv slv l : forall es ns ls ats g cA c0 B st,
+    length ns = length ls -> length ns = length ats -> (length es <= length ns)%nat ->
+    Forall PeL es -> forallb frag_exp es = true ->
+    chain W c0 (flat_map LS.m_exp es) B ->
+    (forall l0, In l0 ls -> idok W l0 /\ hi W l0 <= c0) -> cA <= c0 ->
+    st <> [] -> GU st c0 B ->
+    clean_run true (fst (tr_stat (SLocal ns ls ats es l) flv slv g)) st = true /\
+    EvoS W cA B (tvs st) (tvs (stack_run (fst (tr_stat (SLocal ns ls ats es l) flv slv g)) st)).
+  Proof.
+    intros es ns ls ats g cA c0 B st Hl Ha Hle Hall Hf Hch Hp HcA Hn Hg.
+    pose proof (chain_le W _ _ _ Hch) as HcB.
+    rewrite tr_stat_local, local_vis_thread, (local_visited_all es ns ls ats Hl Ha Hle).
+    pose proof (thread_exps_laid flv es g c0 B Hall Hf Hch) as P.
+    destruct (thread (fun x g0 => tr_exp x None flv g0) es g) as [a1 g1]. cbn [fst] in *.
+    destruct (P st Hn Hg) as [P1 P2].
+    assert (Hn1 : stack_run a1 st <> []) by exact (Evo_ne _ _ _ _ P2 Hn).
+    destruct (local_adds_direct es ns ls ats cA B (stack_run a1 st)) as [R1 R2]; auto.
+    - intros l0 Hl0. destruct (Hp l0 Hl0) as [A1 A2]. split; [exact A1|lia].
+    - intros e He. exact (InReg_widen W _ _ _ cA B (LL.exps_inreg W es c0 B Hch e He) HcA (Z.le_refl B)).
+    - rewrite clean_run_app, stack_run_app, P1, R1. split; [reflexivity|].
+      eapply EvoS_trans; [|exact R2].
+      destruct (tvs st) as [|vs r] eqn:Et; [apply tvs_nonempty in Hn; contradiction|]. apply Evo_EvoS.
+      exact (Evo_widen W _ _ _ _ _ _ P2 HcA (Z.le_refl B)).
   Qed.
 
   Ltac bs H := repeat (apply andb_true_iff in H; let H' := fresh H in destruct H as [H H']).
@@ -596,8 +601,13 @@ Section ULaid.
     - (* SLocal *) intros ns ls ats es l IHe Hf flv slv g a b Hch. cbn [frag_stat LS.m_stat] in *. bs Hf.
       destruct (chain_app W _ _ _ _ Hch) as [c0 [C1 C2]].
       pose proof (chain_le W _ _ _ C1) as L1. pose proof (chain_le W _ _ _ C2) as L2.
-      rewrite tr_stat_local. intros st Hn Hg.
-      destruct (local_go_laid flv es ns ls ats g c0 c0 b st IHe ltac:(assumption) C2) as [P1 P2]; auto.
+      repeat match goal with
+             | H : (_ =? _)%nat = true |- _ => apply Nat.eqb_eq in H
+             | H : (_ <=? _)%nat = true |- _ => apply Nat.leb_le in H
+             end.
+      intros st Hn Hg.
+      destruct (local_go_laid flv slv l es ns ls ats g c0 c0 b st ltac:(assumption) ltac:(assumption) ltac:(assumption)
+                              IHe ltac:(assumption) C2) as [P1 P2]; auto.
       + intros l0 Hl0. destruct (chain_ids W _ _ _ C1 l0 Hl0) as [A1 [_ A3]]. auto.
       + apply Z.le_refl.
       + exact (G_sub W _ _ _ _ _ Hg L1 (Z.le_refl b)).
